@@ -765,18 +765,11 @@ impl Regex {
             .map(|pos| self.input_from_position[pos as usize].clone())
             .collect();
 
-        let mut prev_ambiguous: Option<RegexInput> = None;
-        for inp in inputs {
-            if let Some(ref prev_inp) = path_prev_ambiguous {
-                return Err(Error::UnboundedMatchable(
-                    prev_inp.get_span(),
-                    inp.get_span(),
-                ));
-            }
-
-            if inp.is_star_subword() {
-                prev_ambiguous = Some(inp);
-            }
+        if let (Some(prev_inp), Some(inp)) = (&path_prev_ambiguous, inputs.first()) {
+            return Err(Error::UnboundedMatchable(
+                prev_inp.get_span(),
+                inp.get_span(),
+            ));
         }
 
         for pos in firstpos {
@@ -787,10 +780,13 @@ impl Regex {
                 continue;
             };
             visited.insert(pos);
+            // Only what follows the unbounded item itself is ambiguous, not what follows its siblings.
+            let inp = &self.input_from_position[pos as usize];
+            let prev_ambiguous = inp.is_star_subword().then(|| inp.clone());
             self.do_check_ambiguous_inputs_tail_only_subword(
                 follow,
                 followpos,
-                path_prev_ambiguous.clone().or(prev_ambiguous.clone()),
+                path_prev_ambiguous.clone().or(prev_ambiguous),
                 visited,
             )?;
         }
